@@ -3,7 +3,12 @@
    LimitsLog.v / LimitsSim.v (generic log invariant and simulation), LimitsDepth.v (depth: RAII counter machine,
    transparency, completeness).  All statements quantify over every
    grammar table G, configuration C, fuel f, dynamic parameters d and cursor c (= every offset of
-   every input, with every position record). *)
+   every input, with every position record).
+   End of file (LimitsRaise.v): C18_depth_raises / C18_depth_raise_is_outcome / C18_depth_exact — on tables
+   without try_catch heads the guarded run ENDS in the depth error of the first exceeding entry (combining
+   C18_depth_raises_partial with C05_propagation), and its outcome equals the unguarded one iff the nesting
+   stays within the limits; C18_bytes_whole_run — every invocation frame of a limit_bytes< n > rule in the
+   log of any run spans at most n bytes. *)
 From PegtlV Require Import Base Decode Grammar Engine EngineFacts AtomFacts LimitsSpec LimitsFacts LimitsLog LimitsDepth.
 
 (* ---------------- limit_bytes ---------------- *)
@@ -220,3 +225,102 @@ Example C18_ex_check_bytes :
       Res (Exc (ECheckBytes (mkpos 5 1 6))) (mkcur [] (mkpos 5 1 6)) evs.
 Proof. eexists. vm_compute. reflexivity. Qed.
 Print Assumptions C18_ex_check_bytes.
+
+(* ---------------- limit_depth: the depth error is the OUTCOME of the run (LimitsRaise.v) ----------------
+   Supersedes C18_depth_raises_partial on tables without try_catch heads (RaiseFacts.no_catch; with a
+   try_catch the error may legitimately be converted: the C05_try_catch theorems).  C18_depth_raises_partial +
+   C05_propagation (the exception that reaches the top is the first one thrown, unchanged) + the RAII
+   counter machine:  ends_in_depth_error C lim k p evs  says the guarded run's log is
+       a prefix in which nothing is thrown and every guarded entry stays within its limit,
+       the entry (at position p) of a guarded rule that would push the counter beyond its limit — the FIRST
+       exceeding entry —, the raise at p, and nothing but unwinding afterwards. *)
+From PegtlV Require Import RaiseFacts LimitsRaise.
+
+Theorem C18_depth_raises G C (Fams : nat -> Prop) (lim : rid -> option nat) :
+  no_catch G ->
+  (forall r nd fam, nth_error G r = Some nd -> nhead nd = HAction fam -> Fams fam) ->
+  (forall fam r fam', Fams fam ->
+     acts C fam r = AKMatch (MChangeAction fam') \/ acts C fam r = AKMatch (MChangeActionAndState fam') -> Fams fam') ->
+  (forall fam r, Fams fam -> active G C fam r = lim r) ->
+  forall f d r c k o0 c0 evs0 o1 c1 evs1, Fams (dAct d) ->
+  eval G (strip_depth C) f d r c = Res o0 c0 evs0 -> within lim k evs0 = false ->
+  eval G C f (set_depth d k) r c = Res o1 c1 evs1 ->
+  exists p, o1 = Exc (EParse WLimitDepth p) /\ ends_in_depth_error C lim k p evs1.
+Proof. exact (depth_raises G C Fams lim). Qed.
+Print Assumptions C18_depth_raises.
+
+(* any guarded run (no unguarded companion needed) whose log contains the depth raise ends in it *)
+Theorem C18_depth_raise_is_outcome G C (Fams : nat -> Prop) (lim : rid -> option nat) :
+  no_catch G ->
+  (forall r nd fam, nth_error G r = Some nd -> nhead nd = HAction fam -> Fams fam) ->
+  (forall fam r fam', Fams fam ->
+     acts C fam r = AKMatch (MChangeAction fam') \/ acts C fam r = AKMatch (MChangeActionAndState fam') -> Fams fam') ->
+  (forall fam r, Fams fam -> active G C fam r = lim r) ->
+  forall f d r c o c' evs, Fams (dAct d) -> eval G C f d r c = Res o c' evs -> has_ld evs = true ->
+  exists p, o = Exc (EParse WLimitDepth p) /\ ends_in_depth_error C lim (dDepth d) p evs.
+Proof. exact (raise_is_outcome G C Fams lim). Qed.
+Print Assumptions C18_depth_raise_is_outcome.
+
+(* exactness: the guarded run has the outcome of the unguarded run iff the nesting stays within the limits
+   (then cursor and log agree too); otherwise it ends in the depth error of the first exceeding entry *)
+Theorem C18_depth_exact G C (Fams : nat -> Prop) (lim : rid -> option nat) :
+  no_catch G ->
+  (forall r nd fam, nth_error G r = Some nd -> nhead nd = HAction fam -> Fams fam) ->
+  (forall fam r fam', Fams fam ->
+     acts C fam r = AKMatch (MChangeAction fam') \/ acts C fam r = AKMatch (MChangeActionAndState fam') -> Fams fam') ->
+  (forall fam r, Fams fam -> active G C fam r = lim r) ->
+  forall f d r c k o0 c0 evs0 o1 c1 evs1, Fams (dAct d) ->
+  eval G (strip_depth C) f d r c = Res o0 c0 evs0 ->
+  eval G C f (set_depth d k) r c = Res o1 c1 evs1 ->
+  (o1 = o0 <-> within lim k evs0 = true) /\
+  (within lim k evs0 = true -> c1 = c0 /\ evs1 = evs0) /\
+  (within lim k evs0 = false -> exists p, o1 = Exc (EParse WLimitDepth p) /\ ends_in_depth_error C lim k p evs1).
+Proof. exact (depth_exact G C Fams lim). Qed.
+Print Assumptions C18_depth_exact.
+
+(* the depth raise is never anywhere but right behind the entry that triggered it, at the same position *)
+Theorem C18_depth_raise_behind_entry G C f d r c o c' evs :
+  eval G C f d r c = Res o c' evs ->
+  forall pre ctl p post, evs = pre ++ ERaise ctl WLimitDepth p :: post ->
+    exists pre0 r0 a m, pre = pre0 ++ [EEnter ctl r0 a m p].
+Proof. exact (eval_ld_behind_entry G C f d r c o c' evs). Qed.
+Print Assumptions C18_depth_raise_behind_entry.
+
+(* ---------------- limit_bytes: whole runs ----------------
+   limb r = Some n  iff rule r carries limit_bytes< n >, in every family the run can be in.  wrun is the
+   stack machine over the ghost invocation trace: an exit closes the innermost open invocation, never lies
+   before its entry and — for a limit_bytes< n > rule — lies at most n bytes behind it.  The log of ANY run
+   (every outcome) is accepted: every evaluation of a guarded rule anywhere in a run, however deeply nested,
+   reads at most its window (C18_bytes_restored holds for every frame of the trace). *)
+Theorem C18_bytes_whole_run G C (Fams : nat -> Prop) (limb : rid -> option nat) :
+  table_wf G ->
+  (forall r nd fam, nth_error G r = Some nd -> nhead nd = HAction fam -> Fams fam) ->
+  (forall fam r fam', Fams fam ->
+     acts C fam r = AKMatch (MChangeAction fam') \/ acts C fam r = AKMatch (MChangeActionAndState fam') -> Fams fam') ->
+  (forall fam r, Fams fam -> lb_of (acts C fam r) = limb r) ->
+  forall f d r c o c' evs, Fams (dAct d) -> eval G C f d r c = Res o c' evs ->
+  wrun limb (Some []) evs = Some [].
+Proof. exact (bytes_whole_run G C Fams limb). Qed.
+Print Assumptions C18_bytes_whole_run.
+
+(* the examples above satisfy the new hypotheses; the machine is not vacuous: it rejects a frame of the
+   guarded rule L (limit_bytes 2) that spans 3 bytes *)
+Example C18_ex_no_catch : no_catch ex_table /\ table_wf ex_table /\
+  (forall fam r, ex_fams fam -> lb_of (acts ex_C fam r) = (fun r => if Nat.eqb r 4 then Some 2%nat else None) r) /\
+  wrun (fun r => if Nat.eqb r 4 then Some 2%nat else None) (Some [])
+       [EEnter 2 4 true true (mkpos 2 1 3); EExit 2 4 (Some true) (mkpos 5 1 6)] = None /\
+  wrun (fun r => if Nat.eqb r 4 then Some 2%nat else None) (Some [])
+       [EEnter 2 4 true true (mkpos 2 1 3); EExit 2 4 None (mkpos 4 1 5)] = Some [].
+Proof.
+  split; [|split; [|split; [|split; reflexivity]]].
+  - intros r nd H. do 7 (destruct r as [|r]; [inversion H; subst; exact I|]). destruct r; discriminate H.
+  - intros r nd H. do 7 (destruct r as [|r]; [inversion H; subst; simpl; exact I|]). destruct r; discriminate H.
+  - intros fam r ->. do 7 (destruct r as [|r]; [reflexivity|]). destruct r; reflexivity.
+Qed.
+Print Assumptions C18_ex_no_catch.
+
+Example C18_ex_depth_outcome :
+  exists c1 evs1, run ex_table ex_C 60 ex_dyn 0 [lp; lp; rp; rp] pos0 = Res (Exc (EParse WLimitDepth (mkpos 2 1 3))) c1 evs1 /\
+    wrun (fun r => if Nat.eqb r 4 then Some 2%nat else None) (Some []) evs1 = Some [].
+Proof. eexists. eexists. split; vm_compute; reflexivity. Qed.
+Print Assumptions C18_ex_depth_outcome.
